@@ -70,6 +70,10 @@ def features(files, folders, opts):
         f.add("ctime/atime")
     if opts.get("startpos"):
         f.add("startpos")
+    if opts.get("comment"):
+        f.add("comment-prop")
+    if opts.get("pack_crc") == "partial":
+        f.add("pack-crc-partial")
     if opts.get("archive_props"):
         f.add("archive-props")
     for fo in folders:
@@ -525,7 +529,7 @@ NEUTRALISERS = [
     ("numunpack", _n_opts("numunpack", "auto")), ("substreams", _n_opts("substreams", "auto")), ("folders", _n_single_folder),
     ("interleave", _n_empties_last), ("fcrc", _n_fcrc), ("scrc", _n_scrc), ("attrs", _n_attrs), ("times", _n_times), ("zero", _n_nonzero),
     ("emptyfiles", _n_no_empty_files), ("efvec", _n_opts("emptyfile_vec", "auto")), ("startpos", _n_opts("startpos", None)),
-    ("archive_props", _n_opts("archive_props", None)), ("aesprops", _n_plain_aes),
+    ("archive_props", _n_opts("archive_props", None)), ("aesprops", _n_plain_aes), ("comment", _n_opts("comment", None)),
 ]
 
 
